@@ -426,12 +426,18 @@ def token_progress(F, R):
             return pk
         if H.is_local(n) and H.local_id(n) in peek_ids:
             return pk
+        if H.is_local(n) and H.local_id(n) in bound:
+            return bound[H.local_id(n)]    # `ch if pred(ch) => ..`: the arm's variable is the character matched on
         if n.get("k") == "lit" and n.get("lk") == "char":
             return n["v"]
         return None
 
+    bound = {}
+
     def pat_match(pt, ch):
         k = pt.get("k")
+        if k == "bind" and "sub" not in pt:
+            bound[pt["id"]] = ch
         if k == "wild" or k == "bind":
             return True
         if k == "plit" and pt["lit"].get("lk") == "char":
@@ -512,6 +518,7 @@ def token_progress(F, R):
             continue          # end of input; blanks and comment starts are consumed by the skipping before the dispatch
         for pk in reps:
             n_pairs += 1
+            bound.clear()
             val, arm = make(c, pk)
             ps = H.paths(body, val, limit=3000, arm_oracle=arm)
             for evs, ex in ps:
